@@ -47,6 +47,7 @@ def reversion(shape):
     """The same description text over NEW file contents: every file-backed image / payload gets other bytes (and another size)
     at the SAME path - version 2 of the files of a history in one process."""
     sh = json.loads(json.dumps(shape))
+    sh["symlink"] = shape.get("symlink", False)
     sh["imgs"] = [[f, a, size + (1 if size not in (0, 65535) else 0), seed + 7919] for f, a, size, seed in sh.get("imgs", [])]
     sh["pay"] = [[n, size + 1, form, seed + 7919] for n, size, form, seed in sh.get("pay", [])]
     sh["deps"] = [[n, reversion(c), form, a] for n, c, form, a in sh.get("deps", [])]
@@ -56,6 +57,7 @@ def reversion(shape):
 def run_shape(ctx, tr, shape, via, origin, d=None, prev=None):
     d = d or ctx.tmp("c05")
     b = envgen.Builder(d)
+    b.symlink = bool(shape.get("symlink"))   # "those exact files": a path that is a symbolic link names the file it points to
     scn = {"origin": origin, "via": via, "shape": shape}
     if prev is not None:
         scn["prev"] = prev   # the description created just before, in the same process, over the same paths
@@ -191,6 +193,7 @@ def run(ctx: core.Check):
     toolrun.report(ctx, tr, label="refs-tlc")
     tr = toolrun.Trace()
     for k, sh in enumerate(ref_shapes(ctx)):
+        sh["symlink"] = k % 4 == 2
         via = "lib" if k % 12 else ("json" if k % 24 else "yaml")
         d = run_shape(ctx, tr, sh, via, "forms")
         if d is not None and k % 3 == 1:
